@@ -92,7 +92,24 @@ Definition balance (p : params) (subs : list gsub) (retry h : Z) (n : nat) : obs
 Inductive gop :=
 | GBalance (retry h : Z)
 | GAvail (sub : key) (id : Z) (a : bool)
-| GConn (sub : key) (id n : Z).
+| GConn (sub : key) (id n : Z)
+| GReload (conf : list (key * Z))                 (* BalanceGslb.Reload(gslb conf) *)
+| GBackends (sub : key) (conf : list (Z * Z)).    (* BalanceGslb.BackendReload for one sub-cluster (BalanceRR.Update) *)
+(* BalanceRR.Update on backends with connection counts: kept backends keep object state, new ones are appended *)
+Definition wupdate (bs : list wb) (conf : list (Z * Z)) : list wb :=
+  flat_map (fun b => match lookup (wb_id b) conf with Some w => [(update_weight (fst b) w, snd b)] | None => [] end) bs
+  ++ map (fun e => (init_backend e, 0)) (filter (fun e => negb (existsb (Z.eqb (fst e)) (map wb_id bs))) conf).
+Definition pos_total (conf : list (key * Z)) : Z := fold_right (fun e a => (if 0 <? snd e then snd e else 0) + a) 0 conf.
+(* Reload: kept sub-clusters (new weight, same backends), vanished ones dropped, new ones appended without backends;
+   the list is then sorted by name and totalWeight / single / avail are recomputed — the model selects by name and
+   weight only, so the order is immaterial.  A conf without positive weight is rejected (never generated: the
+   configuration check refuses it before Reload is called) and modelled as no change. *)
+Definition g_reload (subs : list gsub) (conf : list (key * Z)) : list gsub :=
+  if pos_total conf =? 0 then subs
+  else flat_map (fun s => match klookup (s_name s) conf with Some w => [(s_name s, w, s_bs s)] | None => [] end) subs
+       ++ map (fun e => (fst e, snd e, [])) (filter (fun e => negb (existsb (key_eqb (fst e)) (map s_name subs))) conf).
+Definition g_backends (subs : list gsub) (sub : key) (conf : list (Z * Z)) : list gsub :=
+  map (fun s => if key_eqb (s_name s) sub then (s_name s, s_w s, wupdate (s_bs s) conf) else s) subs.
 Definition g_set_avail (subs : list gsub) (sub : key) (id : Z) (a : bool) : list gsub :=
   map (fun s => if key_eqb (s_name s) sub then (s_name s, s_w s, set_av (s_bs s) id a) else s) subs.
 Definition g_set_conn (subs : list gsub) (sub : key) (id n : Z) : list gsub :=
@@ -109,6 +126,8 @@ Fixpoint grun (p : params) (subs : list gsub) (ops : list gop) : list (option ob
   | GBalance retry h :: r => let '(o, subs') := balance p subs retry h 0 in Some o :: grun p subs' r
   | GAvail s id a :: r => None :: grun p (g_set_avail subs s id a) r
   | GConn s id n :: r => None :: grun p (g_set_conn subs s id n) r
+  | GReload conf :: r => None :: grun p (g_reload subs conf) r
+  | GBackends s conf :: r => None :: grun p (g_backends subs s conf) r
   end.
 (* trace validation: some random index explains the observation; continue from the state it leads to *)
 Fixpoint first_match (p : params) (subs : list gsub) (retry h : Z) (o : obs) (ns : list nat) : option (list gsub) :=
@@ -127,6 +146,8 @@ Fixpoint gcheck (p : params) (subs : list gsub) (ops : list gop) (os : list (opt
     end
   | GAvail s id a :: r, None :: os' => gcheck p (g_set_avail subs s id a) r os'
   | GConn s id n :: r, None :: os' => gcheck p (g_set_conn subs s id n) r os'
+  | GReload conf :: r, None :: os' => gcheck p (g_reload subs conf) r os'
+  | GBackends s conf :: r, None :: os' => gcheck p (g_backends subs s conf) r os'
   | _, _ => false
   end.
 
@@ -180,12 +201,25 @@ Definition p_set_avail (subs : list psub) (sub : key) (id : Z) (a : bool) : list
   map (fun s : psub => if key_eqb (fst (fst s)) sub
                 then (fst (fst s), snd (fst s), map (fun b : pb => if fst (fst b) =? id then (fst (fst b), snd (fst b), a) else b) (snd s))
                 else s) subs.
+Definition pupdate (bs : list pb) (conf : list (Z * Z)) : list pb :=
+  flat_map (fun b : pb => match lookup (fst (fst b)) conf with Some w => [(fst (fst b), 100 * w, snd b)] | None => [] end) bs
+  ++ map (fun e : Z * Z => (fst e, 100 * snd e, true))
+         (filter (fun e => negb (existsb (Z.eqb (fst e)) (map (fun b : pb => fst (fst b)) bs))) conf).
+Definition p_reload (subs : list psub) (conf : list (key * Z)) : list psub :=
+  if pos_total conf =? 0 then subs
+  else flat_map (fun s : psub => match klookup (fst (fst s)) conf with Some w => [(fst (fst s), w, snd s)] | None => [] end) subs
+       ++ map (fun e : key * Z => (fst e, snd e, []))
+              (filter (fun e => negb (existsb (key_eqb (fst e)) (map (fun s : psub => fst (fst s)) subs))) conf).
+Definition p_backends (subs : list psub) (sub : key) (conf : list (Z * Z)) : list psub :=
+  map (fun s : psub => if key_eqb (fst (fst s)) sub then (fst (fst s), snd (fst s), pupdate (snd s) conf) else s) subs.
 Fixpoint gspec (p : params) (subs : list psub) (ops : list gop) (os : list (option obs)) : bool :=
   match ops, os with
   | [], [] => true
   | GBalance retry h :: r, Some o :: os' => spec_balance p subs retry h o && gspec p subs r os'
   | GAvail s id a :: r, None :: os' => gspec p (p_set_avail subs s id a) r os'
   | GConn _ _ _ :: r, None :: os' => gspec p subs r os'
+  | GReload conf :: r, None :: os' => gspec p (p_reload subs conf) r os'
+  | GBackends s conf :: r, None :: os' => gspec p (p_backends subs s conf) r os'
   | _, _ => false
   end.
 
@@ -225,5 +259,7 @@ Fixpoint gspec8 (p : params) (subs : list gsub) (ops : list gop) (os : list (opt
   | GBalance retry h :: r, Some o :: os' => c04_ok (fst (fst p)) subs h o && gspec8 p subs r os'
   | GAvail s id a :: r, None :: os' => gspec8 p (g_set_avail subs s id a) r os'
   | GConn s id n :: r, None :: os' => gspec8 p (g_set_conn subs s id n) r os'
+  | GReload conf :: r, None :: os' => gspec8 p (g_reload subs conf) r os'
+  | GBackends s conf :: r, None :: os' => gspec8 p (g_backends subs s conf) r os'
   | _, _ => false
   end.
